@@ -339,15 +339,19 @@ func runOne(c Cfg, cert *tls.Certificate, tokens []string, window time.Duration)
 				srv.send("PING :under-pressure")
 				time.Sleep(8 * time.Millisecond)
 				srv.fc.SetBudget(-1)
-				srv.waitFor(5*time.Second, func(l []string) bool {
-					n := 0
-					for _, x := range l[before:] {
-						if x == "PONG :under-pressure" || x == "PRIVMSG #fill :39" {
-							n++
+				has := func(want string) func(l []string) bool {
+					return func(l []string) bool {
+						for _, x := range l[before:] {
+							if x == want {
+								return true
+							}
 						}
+						return false
 					}
-					return n >= 2
-				})
+				}
+				// the answer was queued among the filler lines: once the last of those is through it is overdue
+				srv.waitFor(5*time.Second, has("PRIVMSG #fill :39"))
+				srv.waitFor(300*time.Millisecond, has("PONG :under-pressure"))
 				reply := []string{}
 				for _, x := range srv.get()[before:] {
 					if strings.HasPrefix(x, "PONG ") {
